@@ -461,8 +461,11 @@ public:
 	    \param offset in bytes to decode from
 	    \param ignore bytes to ignore counting back from end of message
 	    \param permissive_mode if true, ignore unknown fields
+	    \param following traits of the section decoded after this one: its fields are not unknown fields of this section
+	    \param following1 traits of a further following section
 	    \return number of bytes consumed */
-	F8API unsigned decode(const f8String& from, unsigned offset, unsigned ignore=0, bool permissive_mode=false);
+	F8API unsigned decode(const f8String& from, unsigned offset, unsigned ignore=0, bool permissive_mode=false,
+		const FieldTraits *following=nullptr, const FieldTraits *following1=nullptr);
 
 	/*! Decode repeating group from string using nested group method
 	    \param grpbase pointer to groupbase of holding object
@@ -470,9 +473,10 @@ public:
 	    \param from source string
 	    \param s_offset in bytes to decode from
 	    \param ignore bytes to ignore counting back from end of message
+	    \param permissive_mode if true, pass unknown fields through
 	    \return number of bytes consumed */
 	unsigned decode_group(GroupBase *grpbase, const unsigned short fnum, const f8String& from,
-		unsigned s_offset, unsigned ignore);
+		unsigned s_offset, unsigned ignore, bool permissive_mode=false);
 
 	/*! Encode message to stream.
 	    \param to stream to encode to
@@ -1148,8 +1152,8 @@ public:
 	    \return number of bytes consumed */
 	unsigned decode(const f8String& from, unsigned offset=0, unsigned ignore=0, bool permissive_mode=false)
 	{
-		const unsigned hlen(_header->decode(from, offset, 0, permissive_mode));
-		const unsigned blen(MessageBase::decode(from, hlen, 0, permissive_mode));
+		const unsigned hlen(_header->decode(from, offset, 0, permissive_mode, &_fp, &_trailer->_fp));
+		const unsigned blen(MessageBase::decode(from, hlen, 0, permissive_mode, &_trailer->_fp));
 #if defined FIX8_RAW_MSG_SUPPORT
 		_begin_payload = hlen;
 		_payload_len = blen;
